@@ -32,10 +32,12 @@ LEVEL_TEXT = ("Proved, for every registry and integer range, relative to the spe
               "spelling, function names, both string kinds with every escape form) is a token text the spellings range over and converts without error. "
               "C03_complete_abnf_no_call - the same with filter selectors (logical expressions, comparisons, parentheses, negation, existence tests, nested queries and nested filters): every string of the RFC grammar that makes no "
               "function call compiles (Proofs/AbnfSpellF.v; the sub-language is the grammar with function-expr removed from comparable and test-expr, C03_no_call_is_rfc). "
-              "NOT proved (partial): strings WITH function calls from the ABNF; there validity depends on the registry and on the derivation, not on the syntax tree (a parenthesised function argument is "
-              "a logical expression), which is what the typed token grammar QT captures - the theorem there is C03_complete_spelled; "
+              "C03_complete_abnf_builtin - the whole language with the built-in functions: bf_grammar is the RFC grammar in which every function call is a well-typed use of length / count / value / match / search "
+              "(RFC 9535 2.4.3 and the signatures of 2.4.4-2.4.8 written into the rules; C03_builtin_is_rfc: its strings are strings of the RFC grammar); every string it derives compiles wherever the five functions are "
+              "registered with those signatures and the range contains its integers (Proofs/AbnfSpellG.v: the abstract machine run from arbitrary states - filters inside function arguments inside filters - with "
+              "the stacks restored by every construct). What stays a reading: that bf_grammar is exactly 'ABNF + well-typed with the built-ins' (for other registries the theorem is C03_complete_spelled); "
               "every generated valid query, rendered in every lexical form, must compile to the generating structure.")
-LEVEL_NOTE = "Partial only in the link ABNF -> spellings for function calls. Trusted: Coq kernel, grammar transcription, the spelling relation (Proofs/LexSpell.v astep) as a reading of where the ABNF allows blanks, renderer (self-checked), extraction and driver."
+LEVEL_NOTE = "The headline is proved for the typed built-in grammar bf_grammar (a transcription of the typing rules into the ABNF); for arbitrary registries relative to the typed token grammar. Trusted: Coq kernel, grammar transcription, the spelling relation (Proofs/LexSpell.v astep) as a reading of where the ABNF allows blanks, renderer (self-checked), extraction and driver."
 
 
 def nest(rng, depth):
